@@ -423,9 +423,11 @@ func newRecordIterators(ctx *Context, structType reflect.Type, name string) (typ
 	recordIterator = func(context *Context, value reflect.Value) {
 		context.EventReceiver.OnRecord(identifier)
 		for _, field := range fields {
-			fieldValue := field.getValueFromStruct(value)
-			if shouldIncludeField(field, fieldValue, ctx.Configuration.Iterator.DefaultFieldOmitBehavior) {
-				field.Iterate(context, fieldValue)
+			// A record has one value per key of its record type, so a field that
+			// would be omitted from a map because it is empty still has to be
+			// written. Only the fields left out of the record type are left out.
+			if shouldIncludeField(field, dummyValue, ctx.Configuration.Iterator.DefaultFieldOmitBehavior) {
+				field.Iterate(context, field.getValueFromStruct(value))
 			}
 		}
 		context.EventReceiver.OnEndContainer()
